@@ -31,6 +31,8 @@ func init() {
 			{ID: "C03.R10", Floor: 7, Run: c04r1, Text: "mask operations are word-uniform (= C04.R1): filter matching decides which tables a query visits"},
 			{ID: "C03.R11", Floor: 9, Run: c04r2, Text: "mask operations have their set semantics (= C04.R2)"},
 			{ID: "C03.R12", Floor: 6, Run: c09r2, Text: "lock typestate (= C09.R2): the lock bit a query constructor receives is the one the query releases"},
+			{ID: "C03.R13", Floor: 1, Run: deactivateOnlyOnRetire, Text: "a table is marked inactive only by the retiring method (which also removes it from the target map and pushes its slot to the free list): an inactive table that still receives entities is skipped by every selector"},
+			{ID: "C03.R14", Floor: 4, Run: c07r2, Text: "cache list ⇄ position bookkeeping (= C07.R2): the position recorded for a table is read after the table was appended"},
 		},
 	})
 }
